@@ -17,7 +17,9 @@ JudgeDep(rec) ==
           <<p.class = "reject" => ~rec.res.ok, "malformed relationship field accepted">>,
           <<~rec.res.ok => rec.res.nil, "a result was returned together with an error">>,
           <<rec.res_control.ok = rec.res.ok /\ (rec.res.ok => rec.res_control.ast = rec.res.ast),
-            "UnmarshalControl disagrees with Parse">> >>)
+            "UnmarshalControl disagrees with Parse">>,
+          <<rec.dirty_control.ok = rec.res.ok /\ (rec.res.ok => rec.dirty_control.ast = rec.res.ast),
+            "UnmarshalControl into a value that already held relations does not give the field's own relations">> >>)
 
 \* ---- C05: render / re-parse fixpoint ------------------------------------------
 JudgeDepRT(rec) ==
